@@ -1265,6 +1265,10 @@ fn compare_wallets(pre: &Obs, post: &Obs, eff: &Effect, a: &Action, names: &Name
             let r = if matches!(a.act, Act::Buy { .. }) && traders.contains(&who) && g == 0 { "C06.trader_wallet" } else { rule };
             let r = if (a.act.is_deposit() || a.act.is_payout()) && who != a.sender { "C05.third_party_delta" } else { r };
             f.push(Finding::new(r, kind, detail.clone()));
+            if r == "C06.trader_wallet" && after > before {
+                // goods handed out at the swap itself: the other party's later claim delivers them a second time
+                f.push(Finding::new("C03.delivered_at_swap", kind, detail.clone()));
+            }
             if after < before && who != a.sender {
                 f.push(Finding::new("C04.wallet_drained", kind, detail.clone()));
             }
